@@ -3,6 +3,32 @@
 import vlib, hist
 
 ID = "C08"
+MANIFEST = {
+    "text": "Theorems (Coq, every num_waiters >= 1, every number of ULT/external/tasklet callers, every interleaving of the LTS "
+            "Conc/Barrier.v whose labels are the ABT_VERIF hook records: lock ACQ/REL, DATA counter / num_waiters, wait-list "
+            "ENQ/WAKE/BCAST, harness BEGIN/END): no early release (a caller that was woken, is the last arrival, or returns from "
+            "ABT_barrier_wait entered a round whose n-th arrival has happened; the round number changes only at the counter++ "
+            "that makes counter = num_waiters, with num_waiters distinct callers counted in that round); all released (the reset "
+            "after the n-th arrival's broadcast leaves nobody blocked, wait list empty, counter 0; the broadcast cannot end on a "
+            "non-empty list and is never stuck); rounds disjoint (lock free => wait list = callers counted in the current round, "
+            "length = counter < num_waiters; a re-entering caller is counted in a strictly later round than every released "
+            "caller); ABTI_ASSERT(counter < num_waiters) never fails; tasklet callers get ABT_ERR_BARRIER without touching the "
+            "barrier; reinit stores num_waiters only when idle. Tie: real multi-threaded executions (1-8 ULT/external waiters on "
+            "1-4 streams, tasklets, 1-2 barriers, 1-50 consecutive rounds, reinit between phases, num_waiters = 1 included) are "
+            "recorded by the hooks as a totally ordered history and replayed through the extracted step function (every event "
+            "must be enabled, payloads equal); independent monitors on every execution: per-round arrival counters read right "
+            "after each return, API-level counting law returns <= n*floor(calls/n), return codes, watchdog (stuck). "
+            "ABT_xstream_barrier_wait = pthread_barrier_wait in this configuration: API-level monitors only.",
+    "note": "Trusted: Coq kernel; extraction; the LTS abstraction (the critical section of p_barrier->lock as atomic steps, SC "
+            "memory); hook placement and the trace lock making the recorded order the real order; blocking itself (futex, "
+            "context switch) is abstracted to pcs UQ/US/ES and covered by C02/C11; libc pthread_barrier (xstream barrier; the "
+            "sense-reversal #else branch is not compiled, not modelled). ABT_barrier_reinit is modelled only inside its "
+            "documented contract (counter == 0, no concurrent caller: it takes no lock); ABT_barrier_free and NULL handles are "
+            "not modelled. Termination under fair scheduling is not claimed beyond: the broadcast reaches every queued caller "
+            "and the harness watchdog.",
+    "technique": "Coq proof of an inductive invariant over a parametric LTS with ghost round counters + history conformance "
+                 "(recorded hook events replayed by the extracted step function) + independent runtime monitors",
+}
 
 
 def _sprinkle(rng, toks, p=0.25):
@@ -103,8 +129,8 @@ def gen_xscenario(rng, big=False):
 
 
 def gen(rng, tier):
-    n = 150 if tier == "quick" else 1500
-    nx = 16 if tier == "quick" else 150
+    n = 150 if tier == "quick" else 5000
+    nx = 16 if tier == "quick" else 400
     scs = [gen_scenario(rng, big=(tier != "quick" or i % 10 == 0)) for i in range(n)]
     scs += [gen_xscenario(rng, big=(tier != "quick")) for _ in range(nx)]
     return scs, {"scenarios": n + nx, "abt_barrier_scenarios": n, "xstream_barrier_scenarios": nx,
